@@ -157,6 +157,12 @@ func (x *Exec) postCheck(st *State, fn *ssa.Function, con *Contract, results []V
 	}
 	env := x.baseEnv(st)
 	bindResultNames(env.vars, fn.Signature, results)
+	if con != nil && len(con.Requires) > 0 {
+		// vacuity guard: this return must be reachable under the precondition (expected: sat)
+		ob := &Obligation{Name: x.curKey + "#cover", Fn: x.curKey, Kind: "cover", Desc: "a return is reachable under the precondition", Path: append([]string(nil), st.pcDesc...)}
+		ob.Query = st.scriptText() + "(check-sat)\n"
+		x.obls = append(x.obls, ob)
+	}
 	if con != nil && x.mode != "sweep" {
 		for i, c := range con.Ensures {
 			x.oblige(st, "post", clauseLabel(c, i), x.evalClause(env, c, "postcondition"), c.Tags, "postcondition: "+c.Src)
